@@ -524,9 +524,40 @@ func Cmp(op string, a, b *Term) *Term {
 					return Cmp("=", a.Args[0], Const(a.W(), b.C-a.Args[1].C))
 				}
 			}
+			// (x1<<k)+l1 = (x2<<k)+l2 with l1,l2 < 2^k  <=>  l1 = l2 and x1<<k = x2<<k
+			if h1, k1, l1, ok1 := splitShl(a); ok1 {
+				nz1 := !(l1.Op == "c" && l1.C == 0)
+				if h2, k2, l2, ok2 := splitShl(b); ok2 && k1 == k2 && (nz1 || !(l2.Op == "c" && l2.C == 0)) {
+					return And(Cmp("=", l1, l2), Cmp("=", h1, h2))
+				} else if b.Op == "c" && k1 > 0 && nz1 {
+					w := a.W()
+					return And(Cmp("=", l1, Const(w, b.C&((uint64(1)<<uint(k1))-1))), Cmp("=", h1, Const(w, b.C&^((uint64(1)<<uint(k1))-1))))
+				}
+			}
 		}
 	}
 	return mk(&Term{Op: op, S: BoolS, Args: []*Term{a, b}})
+}
+
+// splitShl decomposes t = (x << k) + lo with lo < 2^k; returns (x<<k, k, lo).
+func splitShl(t *Term) (*Term, int, *Term, bool) {
+	w := t.W()
+	if w <= 0 {
+		return nil, 0, nil, false
+	}
+	if t.Op == "bvshl" && t.Args[1].Op == "c" && t.Args[1].C > 0 && t.Args[1].C < uint64(w) {
+		return t, int(t.Args[1].C), Const(w, 0), true
+	}
+	if t.Op == "bvadd" {
+		a, b := t.Args[0], t.Args[1]
+		if a.Op != "bvshl" {
+			a, b = b, a
+		}
+		if a.Op == "bvshl" && a.Args[1].Op == "c" && a.Args[1].C > 0 && a.Args[1].C < 64 && ubound(b, 0) < (uint64(1)<<a.Args[1].C) {
+			return a, int(a.Args[1].C), b, true
+		}
+	}
+	return nil, 0, nil, false
 }
 
 func lbound(t *Term) uint64 {
